@@ -290,9 +290,12 @@ def f7_class(p, goals, history):
             if is_ground_atom_goal(earlier) and is_ground_atom_goal(later):
                 mem = coinductive_cycle_members(p, earlier[1])
                 if mem is not None:
-                    if later[1] in mem:
-                        return True
-                    continue
+                    # the later goal is, or reaches, a cycle member whose table the earlier solve damaged
+                    lnodes, _e, lcomplete = ground_reach(p, later[1])
+                    if lcomplete:
+                        if mem & lnodes:
+                            return True
+                        continue
             # trait level: the later goal mentions a coinductive trait that lies on a cycle of the
             # dependency graph and is reachable from the earlier goal (possibly as the same trait:
             # a different instance of it may be the non-root cycle member)
@@ -324,6 +327,76 @@ def mixed_class(p, goals):
             for b in reach_traits(dep, dep.get(a, ())):
                 if b in dep and not _is_co(p, b) and a in reach_traits(dep, dep.get(b, ())):
                     return True
+    return False
+
+
+def unify_ty(a, b, env):
+    """first-order unification of abstract types; variables are ("var", k) with k tagged by side"""
+    a, b = walk(a, env), walk(b, env)
+    if a == b:
+        return True
+    if a[0] == "var":
+        if occurs(a, b, env):
+            return False
+        env[a] = b
+        return True
+    if b[0] == "var":
+        return unify_ty(b, a, env)
+    if a[0] == "adt" and b[0] == "adt":
+        return a[1] == b[1] and len(a[2]) == len(b[2]) and all(unify_ty(x, y, env) for x, y in zip(a[2], b[2]))
+    return False
+
+
+def walk(t, env):
+    while t[0] == "var" and t in env:
+        t = env[t]
+    return t
+
+
+def occurs(v, t, env):
+    t = walk(t, env)
+    if t == v:
+        return True
+    return t[0] == "adt" and any(occurs(v, x, env) for x in t[2])
+
+
+def tag(t, side):
+    if t[0] == "var":
+        return ("var", (side, t[1]))
+    if t[0] == "adt":
+        return ("adt", t[1], tuple(tag(x, side) for x in t[2]))
+    return t
+
+
+def f16_class(p, g):
+    """class of F16 (SLG: the aggregated answer of a non-ground goal depends on the order in which
+    answers arrive, whenever one answer subsumes another; a panic or an interruption re-enqueues
+    strands and so changes that order): the goal has an unknown, and for some non-ground atom of the
+    goal two clause heads (program clauses, auto-trait rule, hypotheses of the goal) unify with it
+    where one head is an instance of the other."""
+    if not pg.has_exists(g):
+        return False
+    heads = [c.head for c in pg.clauses(p)] + [h for h, _b in goal_clauses(g)]
+    for a in goal_atoms(g):
+        if not pg.atom_vars(a):
+            continue
+        ga = tuple(tag(t, "g") for t in a[1])
+        cand = []
+        for i, h in enumerate(heads):
+            if h[0] != a[0] or len(h[1]) != len(a[1]):
+                continue
+            # hypotheses share the goal's variables; program clauses have their own
+            side = "g" if i >= len(heads) - len(goal_clauses(g)) else ("c", i)
+            ha = tuple(tag(t, side) for t in h[1])
+            env = {}
+            if all(unify_ty(x, y, env) for x, y in zip(ha, ga)):
+                cand.append(ha)
+        for i, x in enumerate(cand):
+            for j, y in enumerate(cand):
+                if i != j:
+                    env = {}
+                    if all(match_ty(b, c, env) for b, c in zip(y, x)):   # x is an instance of y
+                        return True
     return False
 
 
